@@ -4,7 +4,7 @@ from the statements (never from the code).  It is used
   (a) as the native replay after a contract obligation was refuted (find a failing input on the real code), and
   (b) as a *bounded stand-in* (never counted as proved) that keeps deciding when a function was restructured so
       that its sidecar contract no longer applies.
-Bound: plans of at most 6 nodes, histories of at most 6 steps, `cases` seeded cases (VERIF_SEED).
+Bound: plans of at most 8 nodes, histories of at most 6 steps, `cases` seeded cases (VERIF_SEED).
 Run:  PYTHONPATH=<tree>/src python sysprobe_script.py  [env UJVC_PROBE_CASES, VERIF_SEED, UJVC_PROBES=C02,C03,...]
 Exit 1 and lines 'VIOLATED <property> ...' when a statement is violated.
 """
@@ -83,7 +83,11 @@ SCRIPT = textwrap.dedent(
                 args = []
                 if i and kind != "lit":
                     for j in rnd.sample(range(i), rnd.randrange(0, min(i, 3) + 1)):
-                        if kind == "source": continue   # dependent sources are outside the store view (DESIGN 5, C03 scope limit)
+                        if kind == "source":
+                            # dependent source (its store is NOT rewritten by the calls it depends on here: it can stay out of date,
+                            # so the idempotence clause is not checked for such scenarios)
+                            if rnd.random() < 0.5: args.append(("dep", j))
+                            continue
                         else: args.append((rnd.choice(["pos", "pos", "kw:a", "dep"]), j))
                     if kind == "call" and args and rnd.random() < 0.25: args.append((rnd.choice(["pos", "dep"]), args[0][1]))   # parallel edge
                 if kind == "lit" and i and rnd.random() < 0.4:
@@ -92,6 +96,14 @@ SCRIPT = textwrap.dedent(
                 if len(kws) > 1: args = [a for a in args if not a[0].startswith("kw")] + [("kw:a", kws[0][1]), ("kw:b", kws[1][1])][:2]
                 scope = rnd.choice([(), (), ("s1",), ("s1", 2)])
                 self.nodes.append(dict(kind=kind, args=args, stored=(kind == "call" and rnd.random() < 0.5), scope=scope))
+            if rnd.random() < 0.2 and len(self.nodes) <= 4:
+                # dependencies routed through (chains of) literals: p -> lit -> lit -> c
+                b = len(self.nodes)
+                self.nodes.append(dict(kind="call", args=[], stored=False, scope=()))
+                self.nodes.append(dict(kind="lit", args=[("dep", b)], stored=False, scope=()))
+                if rnd.random() < 0.7:
+                    self.nodes.append(dict(kind="lit", args=[("dep", b + 1)], stored=False, scope=()))
+                self.nodes.append(dict(kind="call", args=[("dep", len(self.nodes) - 1)], stored=rnd.random() < 0.3, scope=()))
             self.fail = None            # index of a call that raises
             self.flaky, self.attempts = {}, {}
         def build(self, rec, with_registry=True):
@@ -380,7 +392,8 @@ SCRIPT = textwrap.dedent(
             if on("C15"):
                 pass
             # C05 idempotence
-            if with_reg and on("C05") and rnd.random() < 0.5:
+            has_dep_source = any(nd["kind"] == "source" and nd["args"] for nd in scn.nodes)
+            if with_reg and on("C05") and rnd.random() < 0.5 and not has_dep_source:
                 rec.ev.clear()
                 try: uberjob.run(plan, registry=reg, fresh_time=fresh, progress=None, max_workers=mw)
                 except uberjob.CallError as e: bad("C05", f"{nm}: repeated run failed {e!r}")
